@@ -5,7 +5,7 @@ import re
 
 import z3
 
-from pyvc.core import CutSeq, NativeStub, SBool, Sym, Unsupported
+from pyvc.core import CutSeq, NativeStub, RaiseSignal, SBool, Sym, Unsupported
 from pyvc.interp import LoopSpec, Obj
 from pyvc.verify import Contract, Ctx
 
@@ -23,9 +23,25 @@ class SDK(Sym):
         return True
 
 
+PYEQ = z3.Function("doc_value_pyeq", DV, DV, z3.BoolSort())      # Python's == on document values: coarser than identity as JSON values (1 == True == 1.0)
+
+
 class SDV(Sym):
     def __init__(self, e):
         self.e = e
+
+    def sym_eq(self, ex, other):
+        if isinstance(other, SDV):
+            a = z3.Const("pyeq_a", DV)
+            ex.assume(z3.ForAll([a], PYEQ(a, a)))
+            return SBool(PYEQ(self.e, other.e))
+        raise Unsupported("document value == something else")
+
+    def sym_compare(self, ex, op, other, reflected=False):
+        if op in ("Eq", "NotEq") and isinstance(other, SDV):
+            r = self.sym_eq(ex, other)
+            return r if op == "Eq" else SBool(z3.Not(r.e))
+        raise Unsupported(f"compare {op} on document values")
 
 
 class SSrcDoc(Sym):
@@ -71,6 +87,18 @@ class SDstDoc(Sym):
             raise Unsupported("dst[...] = shape")
         self.dom = z3.Store(self.dom, k.e, True)
         self.val = z3.Store(self.val, k.e, v.e)
+
+    def sym_contains(self, ex, k):
+        if not isinstance(k, SDK):
+            raise Unsupported("`in dst` key")
+        return SBool(self.dom[k.e])
+
+    def sym_getitem(self, ex, k):
+        if not isinstance(k, SDK):
+            raise Unsupported("dst[...] key")
+        if not ex.decide(self.dom[k.e], "dst-has-key"):
+            raise RaiseSignal(KeyError(k))
+        return SDV(self.val[k.e])
 
 
 class DocSyncUpdate(Contract):
